@@ -336,17 +336,44 @@ func oneCodecCase(rt *rapid.T, p *codecPair, dir string) (string, bool, any) {
 		if err := l.AppendEntries(es); err != nil {
 			rt.Fatalf("AppendEntries: %v", err)
 		}
+		// the stored records are rewritten by compaction and cut by truncation before they are read back:
+		// what a record says about itself (its offset) must still describe where it is
+		first := 1
+		if n >= 3 && rapid.Bool().Draw(rt, "rewrite") {
+			c := rapid.IntRange(1, n-2).Draw(rt, "compactAt")
+			if err := l.Compact(uint64(c)); err != nil {
+				rt.Fatalf("Compact: %v", err)
+			}
+			first = c + 1
+			tr := rapid.IntRange(c+2, n).Draw(rt, "truncateAt")
+			if err := l.Truncate(uint64(tr)); err != nil {
+				rt.Fatalf("Truncate: %v", err)
+			}
+			es = es[:tr-1]
+			for i := tr; i <= n; i++ {
+				e := raft.NewLogEntry(uint64(i), ^uint64(0)-1, []byte{byte(i), 0xee}, raft.OperationEntry)
+				es = append(es, e)
+				if err := l.AppendEntry(e); err != nil {
+					rt.Fatalf("AppendEntry: %v", err)
+				}
+			}
+			nt = true
+		}
 		l.Close()
 		l2, _ := raft.NewLog(dir)
 		if err := l2.Open(); err != nil {
 			rt.Fatalf("Open: %v", err)
 		}
-		sample := map[string]any{"kind": "log", "entries": n}
+		sample := map[string]any{"kind": "log", "entries": n, "first_after_compaction": first}
 		if err := l2.Replay(); err != nil {
 			c19Fail(rt, "C19/log-replay-error", err.Error(), sample)
 		}
+		if li := l2.LastIndex(); li != uint64(n) {
+			c19Fail(rt, "C19/log-read-back", fmt.Sprintf("last index %d after reopening, wrote up to %d", li, n), sample)
+		}
+		es = es[first-1:]
 		var back []*raft.LogEntry
-		for i := 1; i <= n; i++ {
+		for i := first; i <= n; i++ {
 			e, err := l2.GetEntry(uint64(i))
 			if err != nil {
 				c19Fail(rt, "C19/log-read-back", err.Error(), sample)
